@@ -8,6 +8,7 @@ CONSTANTS
   Delays = {0}
   StartBacks <- SimStartBacks
   MarkerModes = {TRUE, FALSE}
+  HeadModes = {FALSE, TRUE}
   Windows = {1, 2, 3}
   Modes = {"clean"}
   MaxLoss = 4
@@ -19,7 +20,7 @@ CONSTANTS
   HoldFors = {3, 7, 12}
   Situations = FALSE
   Algo = "none"
-  Impl = "asis"
+  Impl = "pinned"
   Sampling = TRUE
 INIT Init
 NEXT Next
